@@ -5,6 +5,8 @@ CONSTANTS
   Canonical = TRUE
   MaxOps = 4
   PathRank <- RankDef
+  ScriptPaths = {"u"}
+  ScriptContents = {"x", "y"}
 INVARIANT OrderIndependent
 PROPERTY ImportIsAdd
 CHECK_DEADLOCK FALSE
